@@ -1,4 +1,4 @@
-------------------------------- MODULE FilterI -------------------------------
+---------------------------- MODULE TrafficFilterI ----------------------------
 (* C19 - traffic filter: transcription of                                       *)
 (*   interceptor/traffic_filter.py : TrafficFilter.__init__ (list validation),  *)
 (*   is_allowed, _check_for_header_based_filter, _check_allowed, _check_blocked,*)
@@ -8,7 +8,7 @@
 (* _validate_ip.  Flags: RaiseOnV6 / RaiseOnUnicode = behaviour at the pinned   *)
 (* commit (IPv4Address("::1") raises; UnicodeError of the resolver is not       *)
 (* caught); BlockInverted = a breaking variant.                                 *)
-EXTENDS FilterP
+EXTENDS TrafficFilterP
 
 CONSTANTS RaiseOnV6, RaiseOnUnicode, BlockInverted
 
